@@ -248,7 +248,11 @@ def _small_script():
 
 
 def _normal_hash():
-    return st.binary(min_size=31, max_size=31).map(lambda b: (b"\x01" + b).hex())
+    plain = st.binary(min_size=31, max_size=31).map(lambda b: (b"\x01" + b).hex())
+    # non-null hashes that begin or end with a run of zero bytes (real transaction ids of low-difficulty coins do)
+    runs = st.builds(lambda j, b, front: ((b"\0" * j + b"\x01" + (b * 2)[:31 - j]) if front else ((b * 2)[:31 - j] + b"\x01" + b"\0" * j)).hex(),
+                     st.integers(1, 31), st.binary(min_size=16, max_size=16), st.booleans())
+    return weighted([(9, plain), (1, runs)])
 
 
 def _normal_in():
@@ -352,6 +356,20 @@ def s_check():
                                               st.one_of(st.sampled_from([0, 1, 5]), st.integers(0, NULL_INDEX - 1)),
                                               st.sampled_from([0, 0, 0, 1, 2])), ok_outs)
 
+        # 4b. two neighbouring inputs whose (non-null) hashes together contain 32 zero bytes in a row: the first ends in j zero
+        # bytes, the second begins with 32 - j or more
+        def straddle(ins, pos, j, extra, b):
+            ins = [dict(i) for i in ins]
+            first = ((b * 2)[:31 - j] + b"\x01" + b"\0" * j).hex()
+            k = min(31, 32 - j + extra)
+            second = (b"\0" * k + b"\x02" + (b * 2)[:31 - k]).hex()
+            pos %= len(ins) + 1
+            ins[pos:pos] = [{"prev": first, "index": 1, "script": "51", "sequence": 0, "witness": []},
+                            {"prev": second, "index": 2, "script": "52", "sequence": 0, "witness": []}]
+            return ins
+        c_straddle = st.builds(base, st.builds(straddle, ins_ok, st.integers(0, 4), st.integers(1, 31), st.integers(0, 2),
+                                               st.binary(min_size=16, max_size=16)), ok_outs)
+
         # 5. sizes 999 999 / 1 000 000 / 1 000 001 through one padded script, measured stripped or in total, with / without witness
         def sized(ins, outs_, where, pos, size, of, seed, wit, coinbase, shape):
             ins = [dict(i, witness=[]) for i in ins]
@@ -383,7 +401,7 @@ def s_check():
         c_free = st.builds(base, st.lists(st.one_of(_normal_in(), txgen.txins(big=0)), max_size=4), st.one_of(outs, ok_outs, st.just([])),
                            txgen.u32s(), txgen.u32s())
         tx = weighted([(26, c_values), (6, c_counts), (14, c_dups), (3, c_many), (12, c_coinbase), (6, c_nearnull_alone),
-                       (3, c_ffff_alone), (14, c_planted), (6, c_size), (10, c_free)])
+                       (3, c_ffff_alone), (14, c_planted), (6, c_size), (10, c_free), (3, c_straddle)])
         return tx.map(lambda t: {"coin": coin, "tx": t})
     built = {coin: build(coin) for coin in MAX_MONEY}       # built once; drawing a coin must not rebuild the strategy tree
     return st.one_of(*[built[c] for c in ("BTC", "BTC", "LTC", "BCH", "BTG", "GRS", "GRS")])
